@@ -78,7 +78,7 @@ func runC08(c *Ctx) {
 			}, func(ex core.Exit) bool { return g.ReturnKind(ex) != core.RetSuccess })
 			c.Check("C08-R2", key+" error-exits-clean-up", c.Pos(cp.Node), len(bad) == 0, exitList(c, bad, "error return after the copy started without Truncate(0)/Remove"))
 			nres := core.ResultVar(info, cp.Top, cp.Node.(*ast.CallExpr), 0)
-			sizeParam := paramObj(f, "size")
+			sizeParam := paramAt(f, 3)
 			nSucc := 0
 			for _, ex := range g.Returns() {
 				if g.ReturnKind(ex) != core.RetSuccess {
@@ -101,8 +101,9 @@ func runC08(c *Ctx) {
 				ok2 := false
 				for _, a := range g.AtomsAt(ex.Loc) {
 					if be, isB := ast.Unparen(a.Expr).(*ast.BinaryExpr); isB && nres != nil && sizeParam != nil {
-						l, r := core.UsesObj(info, be.X, nres), core.UsesObj(info, be.Y, sizeParam)
-						if l && r && ((be.Op == token.LSS && !a.Val) || (be.Op == token.NEQ && !a.Val) || (be.Op == token.GEQ && a.Val) || (be.Op == token.EQL && a.Val)) {
+						_, y, op, okO := core.Orient(be, func(e ast.Expr) bool { return core.UsesObj(info, e, nres) })
+						l, r := okO, okO && core.UsesObj(info, y, sizeParam)
+						if l && r && ((op == token.LSS && !a.Val) || (op == token.NEQ && !a.Val) || (op == token.GEQ && a.Val) || (op == token.EQL && a.Val)) {
 							ok2 = true
 						}
 					}
@@ -195,7 +196,7 @@ func runC08(c *Ctx) {
 			if hasTrunc(call.Args[1]) {
 				ok = true
 			} else if id, isID := ast.Unparen(call.Args[1]).(*ast.Ident); isID {
-				sizeParam := paramObj(f, "size")
+				sizeParam := paramAt(f, 3)
 				for _, as := range g.AssignsTo(info.Uses[id]) {
 					if !hasTrunc(as.Node) || !g.Dominates(as.Loc, op.Loc) && !g.Reaches(as.Loc, op.Loc) {
 						continue
@@ -220,7 +221,7 @@ func runC08(c *Ctx) {
 		cps := g.FindCalls(blobPkg + ".DiskCache.copyNamedFile")
 		opens := g.FindCalls("os.OpenFile", "os.Open")
 		c.Expect("C08-R4", "copyNamedFile call in Link", len(cps), 1)
-		dParam := paramObj(f, "d")
+		dParam := paramAt(f, 1)
 		for _, cp := range cps {
 			ok := false
 			detail := "no successful open of GetFile(d) dominates the copy"
@@ -315,7 +316,7 @@ func runC08(c *Ctx) {
 			nres := core.ResultVar(info, cps[0].Top, cps[0].Node.(*ast.CallExpr), 0)
 			sizeOK := false
 			for _, a := range g.AtomsAt(ren[0].Loc) {
-				if be, isB := ast.Unparen(a.Expr).(*ast.BinaryExpr); isB && nres != nil && core.UsesObj(info, be, nres) && core.UsesObj(info, be, paramObj(f, "size")) &&
+				if be, isB := ast.Unparen(a.Expr).(*ast.BinaryExpr); isB && nres != nil && core.UsesObj(info, be, nres) && core.UsesObj(info, be, paramAt(f, 1)) &&
 					((be.Op == token.NEQ && !a.Val) || (be.Op == token.EQL && a.Val)) {
 					sizeOK = true
 				}
@@ -675,6 +676,18 @@ func paramAt(f *core.Func, i int) types.Object {
 				return f.Info().Defs[n]
 			}
 			k++
+		}
+	}
+	return nil
+}
+
+// paramByType returns the first parameter whose type satisfies pred.
+func paramByType(f *core.Func, pred func(t types.Type) bool) types.Object {
+	for _, fl := range f.Type.Params.List {
+		for _, n := range fl.Names {
+			if o := f.Info().Defs[n]; o != nil && pred(o.Type()) {
+				return o
+			}
 		}
 	}
 	return nil
